@@ -125,9 +125,14 @@ def make_case(rng, maxdepth, fan):
     design = {"bundles": bundles, "modules": [], "top": "T"}
     leaves = refsem.bundle_leaves(design, root)
     obs = []
+    bare = rng.random() < 0.3  # a child that leaves (most of) its bundle port's members unused inside
     for k, (path, w) in enumerate(leaves):
+        if bare and k > 0:
+            continue
         obs.append({"name": f"o{k}", "kind": "single", "of": ["leaf", refsem.wleaf(w)], "tag": 10 + k, "conns": {"p": ["bref", "bp", list(path)]}})
     for k, (path, w) in enumerate(leaves):
+        if bare and k > 0:
+            continue
         obs.append({"name": f"q{k}", "kind": "single", "of": ["leaf", refsem.wleaf(w)], "tag": 50 + k, "conns": {"p": ["bref", "bi", list(path)]}})
     bp = ["bp", root, flip, role] + (["fn"] if via == "fn" else [])
     ch = {"name": "Ch", "style": "proc", "ports": [], "bports": [bp], "sigs": [], "buns": [["bi", root]], "insts": obs}
